@@ -1957,7 +1957,12 @@ class Exec:
                     # counter-model found after this point may be an artefact and is reported as undecided
                     self.labels.setdefault(("abstracted",), []).append(f"{src_of(s)[:80]} ({e})")
                     names, arrays = self.modified([s])
+                    n0 = next(self.n)
                     self.havoc(names, arrays, [s])
+                    n1 = next(self.n)
+                    # symbols created by this havoc carry a counter in (n0, n1): remembered so that a refutation
+                    # whose formula does not mention any of them is known to be independent of the abstraction
+                    self.labels.setdefault(("abstracted_range",), []).append((n0, n1))
             else:
                 self.assign_target(tgt, val, s)
 
